@@ -6,6 +6,8 @@ SPEC = {
         {"name": "TestPreloadEquivalence", "quick": 2400, "thorough": 160000, "shards_quick": 8, "shards_thorough": 16, "timeout": 2400},
         {"name": "TestKnownWitness", "quick": 1, "thorough": 1, "shards": 1, "timeout": 120},
     ],
+    # thorough tier: coverage-guided campaigns over the same generators + oracles (rapid.MakeFuzz)
+    "fuzz": [{"name": "FuzzModel", "seconds": 60}],
     "rule": ("rapid-generated ammo files (internal/ammogen, all layout knobs; tags drawn from a small pool so they repeat; untagged "
              "entries) in the four HTTP formats x limit 0..12 x passes 0..3 x chosencases (none / a subset of the pool incl. the empty "
              "tag / a tag matching nothing) x the documented header/date ammo middleware (absent in two cases of three; default or custom "
